@@ -486,18 +486,25 @@ class ProductState:
             in the order in which the states are given
         """
         if self.expansion_level == ExpansionLevel.Vector:
-            # Reshape the vector into tensor
-            shape = [s.dimensions for s in self.state_objs] + [1]
-            ps = self.state.reshape(shape)
+            # Reshape the vector into a (kept states) x (traced out states) matrix
+            shape = [s.dimensions for s in self.state_objs]
+            keep = [
+                [so is s for so in self.state_objs].index(True) for s in states
+            ]
+            rest = [i for i in range(len(self.state_objs)) if i not in keep]
+            kept_dims = int(jnp.prod(jnp.array([shape[i] for i in keep])))
+            ps = self.state.reshape(shape).transpose(keep + rest)
+            ps = ps.reshape((kept_dims, -1))
 
-            # Compute einsum string
-            einsum = ESC.trace_out_vector(self.state_objs, list(states))
+            # The kept states are in a pure state only if they are not entangled
+            # with the rest: then every column is proportional to that state
+            norms = jnp.linalg.norm(ps, axis=0)
+            column = int(jnp.argmax(norms))
+            if jnp.abs(norms[column] ** 2 - jnp.sum(norms**2)) < 1e-12:
+                return (ps[:, column] / norms[column]).reshape((-1, 1))
 
-            # Perform the tracing
-            traced_out_state = jnp.einsum(einsum, ps)
-
-            # Reshape and return
-            return traced_out_state.reshape((-1, 1))
+            # Otherwise the reduced state is mixed: return the density matrix
+            return jnp.matmul(ps, jnp.conj(ps.T))
         elif self.expansion_level == ExpansionLevel.Matrix:
             # Reshape the matrix into tensor
             ps = self.state.reshape([s.dimensions for s in self.state_objs] * 2)
